@@ -124,6 +124,15 @@ class Ctx:
         return ex.step_get(v, ("f", self.field_index(struct, field), self.norm_type(self.field_type(struct, field))))
 
 
+def known_classes(pid, obligation):
+    f = json.load(open(os.path.join(VERIF, "known_findings.json")))
+    out = set()
+    for k in f.get("findings", []):
+        if k["property"] == pid and k["obligation"] == obligation:
+            out.update(k.get("classes", []))
+    return out
+
+
 def model_values(m, exprs):
     out = {}
     for k, e in exprs.items():
